@@ -7,6 +7,7 @@ import (
 	"fmt"
 	"os"
 	"runtime"
+	"runtime/debug"
 	"testing"
 	"time"
 
@@ -43,6 +44,9 @@ func TestWorker(t *testing.T) {
 	if *fProp == "" {
 		t.Skip("no -sim.prop")
 	}
+	// Goroutine stacks are capped at the Go default of 32-bit platforms (lal ships for ARM boards too): recursion
+	// that is unbounded in its input then overflows within the message sizes the quick tier can afford.
+	debug.SetMaxStack(250 << 20)
 	chk := scen.Checks[*fProp]
 	if chk == nil {
 		fmt.Fprintf(os.Stderr, "unknown property %s\n", *fProp)
